@@ -77,6 +77,8 @@ func instancesFor(prop, tier string) []*Instance {
 		c07Instances(add, thorough)
 	case "C11":
 		c11Instances(add, thorough, 0)
+	case "C16":
+		c16Instances(add, thorough)
 	case "C08":
 		c08Instances(add, thorough)
 	case "C03":
@@ -868,6 +870,59 @@ func c11Instances(add func(*Instance), thorough bool, inv int) {
 					}
 					add(&Instance{Func: "VerifC11Aggregate", Params: with(base, "g", g, "lst", l, "w", w, "akeys", kp[0], "bkeys", kp[1], "ckeys", 4,
 						"ac0", 21, "ac1", 21, "bc0", 21, "bc1", 22, "cc0", 21, "xb", 56, "xm", 15)})
+				}
+			}
+		}
+	}
+}
+
+func c16Instances(add func(*Instance), thorough bool) {
+	small := P("L", 7, "eff", 1, "ak", 2, "akeys", 0, "acow", 1, "ac0", 2, "ac1", 201, "xb", 0, "xm", -1)
+	top := P("L", 7, "eff", 1, "ak", 2, "akeys", 2, "acow", 0, "ac0", 1, "ac1", 2, "xb", 0, "xm", -1)
+	bmp := P("L", 7, "eff", 1, "ak", 2, "akeys", 4, "acow", 0, "ac0", 100, "ac1", 21)
+	// offsets: multiples of 65536 and not, negative, across 0 and 2^32
+	type off struct{ off, offm, u int }
+	for _, o := range []off{{65530, 15, 0}, {65536, 0, 0}, {-65540, 15, 0}, {0, 7, 1}, {65530, 15, 1}, {-8, 15, 0}, {4294901760, 65535, 0}, {-4294967295, 65535, 0}, {4294901755, 15, 1}, {131072, 0, 1}} {
+		add(&Instance{Func: "VerifC16Offset", Params: with(small, "off", o.off, "offm", o.offm, "u", o.u)})
+		add(&Instance{Func: "VerifC16Offset", Params: with(top, "off", o.off, "offm", o.offm, "u", o.u)})
+	}
+	for _, o := range []off{{1, 0, 0}, {63, 3, 0}, {65536, 0, 0}, {4095, 1, 1}, {65535, 0, 1}} {
+		add(&Instance{Func: "VerifC16Offset", Params: with(bmp, "off", o.off, "offm", o.offm, "u", o.u, "xb", 4150, "xm", 255)})
+	}
+	add(&Instance{Func: "VerifC16Offset", Params: with(P("L", 7, "eff", 1, "ak", 2, "akeys", 3, "ac0", 220, "ac1", 1, "xb", 0, "xm", -1), "off", 65530, "offm", 15, "u", 0)})
+	// static flip
+	for _, r := range [][5]int{{0, 262143, 0, 0, 3}, {4294967280, 15, 4294967288, 15, -1}} {
+		add(&Instance{Func: "VerifC16Flip", Params: with(P("L", 7, "eff", 1, "ak", 2, "akeys", 4, "acow", 1, "ac0", 2, "ac1", 1, "xb", 0, "xm", 262143), "sb", r[0], "sm", r[1], "eb", r[2], "em", r[3], "len", r[4])})
+	}
+	add(&Instance{Func: "VerifC16Flip", Tier: 1, Params: with(top, "sb", 4294967280, "sm", 15, "eb", 4294967288, "em", 15, "len", -1, "xm", 262143)})
+	add(&Instance{Func: "VerifC16Flip", Params: with(P("L", 7, "eff", 1, "ak", 2, "akeys", 4, "ac0", 224, "ac1", 21), "sb", 56, "sm", 15, "eb", 70, "em", 15, "len", -1, "xb", 56, "xm", 15)})
+	// dense export
+	for _, sh := range []map[string]int{
+		P("ak", 2, "akeys", 4, "ac0", 22, "ac1", 224, "xb", 56, "xm", 15),
+		P("ak", 2, "akeys", 4, "ac0", 100, "ac1", 226, "xb", 65536, "xm", 127),
+		P("ak", 1, "akeys", 4, "ac0", 226, "xb", 65500, "xm", 63),
+		P("ak", 2, "akeys", 5, "ac0", 21, "ac1", 21, "xb", 65536 + 56, "xm", 15),
+		P("ak", 0, "xb", 0, "xm", 255),
+		P("ak", 2, "akeys", 4, "ac0", 220, "ac1", 227, "xb", 65530, "xm", 15),
+	} {
+		add(&Instance{Func: "VerifC16Dense", Params: with(sh, "L", 7, "eff", 1)})
+	}
+	// dense import: lengths not multiple of 1024, trailing partial chunk, both copy modes, function and method
+	for _, n := range []int{1, 2, 1023, 1024, 1025, 2049} {
+		for _, pat := range []int{0, 1} {
+			for cp := 0; cp <= 1; cp++ {
+				tier := 0
+				if n == 2049 && pat == 0 {
+					tier = 1
+				}
+				if n <= 2 && pat == 1 {
+					continue // 64/128 set bits become a long array chunk: the follow-up point mutations fork per element
+				}
+				for _, xb := range []int{0, (n - 1) * 64} {
+					if xb == 0 && n == 1 {
+						continue
+					}
+					add(&Instance{Func: "VerifC16FromDense", Tier: tier, Params: P("n", n, "pat", pat, "copy", cp, "mth", (n+cp)%2, "nbits", 2, "xb", xb, "xm", 127)})
 				}
 			}
 		}
